@@ -543,3 +543,1182 @@ Proof.
     repeat match goal with X : (if ?d then true else false) = true |- _ => destruct d; [clear X|discriminate X] end.
     repeat split; auto.
 Qed.
+
+
+(* ------------------------------------------------------------------ *)
+(* 5. get_info on rendered texts                                       *)
+(* ------------------------------------------------------------------ *)
+Definition bad_formats_of (fk tk : string) : list string :=
+  if String.eqb tk "truncated" then []
+  else if String.eqb fk "basic" then ["extended"]
+  else if String.eqb fk "extended" then ["basic"] else [].
+Definition bad_types_of (de : env) : list string := if has_key "truncated" de then [] else ["truncated"].
+
+Section Info.
+Variables dfs tfs zfs : list form.
+
+(* the time/zone splitting step of get_info *)
+Definition split_tz (cfg : pcfg) (tz : string) (bf bt : list string) : pres (string * option string) :=
+  match ends_with_Z tz with
+  | Some t => POk (t, Some "Z")
+  | None =>
+    if contains_char "+" tz then
+      match split_str "+" tz with
+      | [t; z] => POk (t, Some ("+" ++ z))
+      | _ => PErr EValue
+      end
+    else if contains_char "-" tz then
+      let '(t, z) := rsplit_dash tz in
+      match get_time_info tfs cfg t bf bt, get_zone_info zfs cfg ("-" ++ z) bf with
+      | Some _, Some _ => POk (t, Some ("-" ++ z))
+      | _, _ => POk (tz, None)
+      end
+    else POk (tz, None)
+  end.
+(* the zone and time lookups after the split *)
+Definition finish (cfg : pcfg) (de : env) (dexpr : string) (bf bt : list string) (t : string) (zs : option string) : pres pinfo :=
+  let zres : pres (zinfo * string) :=
+    match zs with
+    | None => match process_zone cfg [] with POk z => POk (z, "") | PErr x => PErr x end
+    | Some ztext =>
+      match get_zone_info zfs cfg ztext bf with
+      | None => PErr ESyntax
+      | Some (zf, ze) => match process_zone cfg ze with POk z => POk (z, f_expr zf) | PErr x => PErr x end
+      end
+    end in
+  match zres with
+  | PErr x => PErr x
+  | POk (z, zexpr) =>
+    match get_time_info tfs cfg t bf bt with
+    | None => PErr ESyntax
+    | Some (tf, te) => POk (mkInfo de te z (dexpr ++ "T" ++ f_expr tf ++ zexpr))
+    end
+  end.
+Definition date_part (cfg : pcfg) (d : string) : option (string * string * string * env) :=
+  if String.eqb d "" && c_trunc cfg then Some ("", "truncated", "", [("truncated", "True")])
+  else match get_date_info dfs cfg d ["reduced"] with
+       | Some (f, e) => Some (f_format f, f_type f, f_expr f, e)
+       | None => None end.
+
+Lemma get_info_unfold : forall cfg s,
+  get_info dfs tfs zfs cfg s =
+  match split_str "T" s with
+  | [d] =>
+    match get_date_info dfs cfg d [] with
+    | None => PErr ESyntax
+    | Some (f, e) => match process_zone cfg [] with POk z => POk (mkInfo e [] z (f_expr f)) | PErr x => PErr x end
+    end
+  | [d; tz] =>
+    match date_part cfg d with
+    | None => PErr ESyntax
+    | Some (fk, tk, dexpr, de) =>
+      match split_tz cfg tz (bad_formats_of fk tk) (bad_types_of de) with
+      | PErr x => PErr x
+      | POk (t, zs) => finish cfg de dexpr (bad_formats_of fk tk) (bad_types_of de) t zs
+      end
+    end
+  | _ => PErr EValue
+  end.
+Proof. reflexivity. Qed.
+End Info.
+
+(* --- characters of rendered texts --- *)
+Lemma contains_char_app : forall c a b, contains_char c (a ++ b) = contains_char c a || contains_char c b.
+Proof. induction a; simpl; intros; [reflexivity|]. rewrite IHa, orb_assoc. reflexivity. Qed.
+Lemma split_on_nochar : forall c a cur, contains_char c a = false -> split_on c a cur = [cur ++ a].
+Proof.
+  induction a as [|x a IH]; simpl; intros cur H.
+  - rewrite sapp_nil_r. reflexivity.
+  - apply orb_false_iff in H. destruct H as [H1 H2]. rewrite H1, IH by assumption.
+    rewrite sapp_assoc. reflexivity.
+Qed.
+Lemma split_on_at : forall c a b cur, contains_char c a = false ->
+  split_on c (a ++ String c b) cur = (cur ++ a) :: split_on c b "".
+Proof.
+  induction a as [|x a IH]; simpl; intros b cur H.
+  - rewrite Ascii.eqb_refl, sapp_nil_r. reflexivity.
+  - apply orb_false_iff in H. destruct H as [H1 H2]. rewrite H1, IH by assumption.
+    rewrite sapp_assoc. reflexivity.
+Qed.
+Lemma split_two : forall c a b, contains_char c a = false -> contains_char c b = false ->
+  split_str c (a ++ String c b) = [a; b].
+Proof. intros. unfold split_str. rewrite split_on_at, split_on_nochar by assumption. reflexivity. Qed.
+
+Definition no_char (c : ascii) (ts : list ptok) : bool :=
+  forallb (fun t => match t with
+                    | PLit l => negb (contains_char c l)
+                    | PGrp _ l => negb (contains_char c l)
+                    | PDig _ _ => negb (is_digit c)
+                    | PDigs _ => negb (is_digit c)
+                    | PSign _ => negb (Ascii.eqb c "+" || Ascii.eqb c "-")
+                    | PUnix _ => false end) ts.
+Lemma digits_no_char : forall c d, is_digit c = false -> all_digits d = true -> contains_char c d = false.
+Proof.
+  induction d as [|x d IH]; simpl; intros N A; [reflexivity|].
+  apply andb_true_iff in A. destruct A as [A1 A2]. rewrite IH by assumption.
+  destruct (Ascii.eqb x c) eqn:E; [|reflexivity]. apply Ascii.eqb_eq in E. subst x. congruence.
+Qed.
+Lemma render_no_char : forall c ts a, no_char c ts = true -> wf_assign ts a = true ->
+  contains_char c (render_toks ts a) = false.
+Proof.
+  induction ts as [|t ts IH]; intros a N W; [reflexivity|].
+  cbn [no_char forallb] in N. apply andb_true_iff in N. destruct N as [N1 N2]. fold (no_char c ts) in N2.
+  destruct t as [l|nm n|nm|nm|nm l|nm]; cbn [render_toks wf_assign] in *; rewrite contains_char_app.
+  - rewrite IH by assumption. apply negb_true_iff in N1. rewrite N1. reflexivity.
+  - apply andb_true_iff in W. destruct W as [W1 W2]. rewrite IH by assumption.
+    apply negb_true_iff in N1. apply digits_n_inv in W1. rewrite digits_no_char by tauto. reflexivity.
+  - apply andb_true_iff in W. destruct W as [W1 W2]. rewrite IH by assumption.
+    apply negb_true_iff in N1. unfold digits_plus in W1. apply andb_true_iff in W1.
+    rewrite digits_no_char by tauto. reflexivity.
+  - apply andb_true_iff in W. destruct W as [W1 W2]. rewrite IH by assumption.
+    apply negb_true_iff in N1. apply orb_false_iff in N1. destruct N1 as [P M].
+    apply is_sign_inv in W1. destruct W1 as [E|E]; rewrite E; cbn [contains_char]; rewrite Ascii.eqb_sym; [rewrite P|rewrite M]; reflexivity.
+  - rewrite IH by assumption. apply negb_true_iff in N1. rewrite N1. reflexivity.
+  - discriminate.
+Qed.
+
+Lemma ends_with_Z_app : forall t, ends_with_Z (t ++ "Z") = Some t.
+Proof.
+  induction t as [|c t IH]; [reflexivity|].
+  change (String c t ++ "Z") with (String c (t ++ "Z")). cbn [ends_with_Z]. rewrite IH.
+  destruct t; reflexivity.
+Qed.
+Lemma ends_with_Z_contains : forall s x, ends_with_Z s = Some x -> contains_char "Z" s = true.
+Proof.
+  induction s as [|c s IH]; intros x H; [discriminate|].
+  cbn [ends_with_Z] in H. cbn [contains_char]. destruct s as [|c' s'].
+  - destruct (Ascii.eqb c "Z"); [reflexivity|discriminate].
+  - destruct (ends_with_Z (String c' s')) eqn:E; [|discriminate]. rewrite (IH _ eq_refl). apply orb_true_r.
+Qed.
+Lemma ends_with_Z_none : forall s, contains_char "Z" s = false -> ends_with_Z s = None.
+Proof. intros s H. destruct (ends_with_Z s) eqn:E; [|reflexivity]. apply ends_with_Z_contains in E. congruence. Qed.
+
+Lemma rsplit_dash_app : forall t z, contains_char "-" z = false -> rsplit_dash (t ++ String "-" z) = (t, z).
+Proof.
+  induction t as [|c t IH]; intros z H.
+  - simpl. rewrite H. reflexivity.
+  - change (String c t ++ String "-" z) with (String c (t ++ String "-" z)). cbn [rsplit_dash].
+    rewrite contains_char_app. simpl contains_char at 2. rewrite orb_true_r. rewrite IH by assumption. reflexivity.
+Qed.
+
+Section Info2.
+Variables dfs tfs zfs : list form.
+
+Lemma split_tz_Z : forall cfg t bf bt, split_tz tfs zfs cfg (t ++ "Z") bf bt = POk (t, Some "Z").
+Proof. intros. unfold split_tz. rewrite ends_with_Z_app. reflexivity. Qed.
+Lemma split_tz_none : forall cfg t bf bt,
+  contains_char "Z" t = false -> contains_char "+" t = false -> contains_char "-" t = false ->
+  split_tz tfs zfs cfg t bf bt = POk (t, None).
+Proof. intros. unfold split_tz. rewrite ends_with_Z_none by assumption. rewrite H0, H1. reflexivity. Qed.
+Lemma split_tz_plus : forall cfg t z bf bt,
+  contains_char "Z" t = false -> contains_char "Z" z = false ->
+  contains_char "+" t = false -> contains_char "+" z = false ->
+  split_tz tfs zfs cfg (t ++ String "+" z) bf bt = POk (t, Some (String "+" z)).
+Proof.
+  intros. unfold split_tz. rewrite ends_with_Z_none.
+  2:{ rewrite contains_char_app. simpl. rewrite H, H0. reflexivity. }
+  rewrite contains_char_app. simpl contains_char at 2. rewrite orb_true_r.
+  rewrite split_two by assumption. reflexivity.
+Qed.
+Lemma split_tz_minus : forall cfg t z bf bt x y,
+  contains_char "Z" t = false -> contains_char "Z" z = false ->
+  contains_char "+" t = false -> contains_char "+" z = false -> contains_char "-" z = false ->
+  get_time_info tfs cfg t bf bt = Some x -> get_zone_info zfs cfg (String "-" z) bf = Some y ->
+  split_tz tfs zfs cfg (t ++ String "-" z) bf bt = POk (t, Some (String "-" z)).
+Proof.
+  intros. unfold split_tz. rewrite ends_with_Z_none.
+  2:{ rewrite contains_char_app. simpl. rewrite H, H0. reflexivity. }
+  rewrite contains_char_app. simpl contains_char at 2. rewrite H1, H2. simpl orb.
+  rewrite contains_char_app. simpl contains_char at 2. rewrite orb_true_r.
+  rewrite rsplit_dash_app by assumption. simpl append. rewrite H4, H5. reflexivity.
+Qed.
+
+Lemma finish_some : forall cfg de dexpr bf bt t ztext gz ze gt te,
+  get_zone_info zfs cfg ztext bf = Some (gz, ze) -> get_time_info tfs cfg t bf bt = Some (gt, te) ->
+  finish tfs zfs cfg de dexpr bf bt t (Some ztext) =
+  match process_zone cfg ze with
+  | POk z => POk (mkInfo de te z (dexpr ++ "T" ++ f_expr gt ++ f_expr gz))
+  | PErr x => PErr x end.
+Proof. intros. unfold finish. rewrite H. destruct (process_zone cfg ze); [|reflexivity]. rewrite H0. reflexivity. Qed.
+Lemma finish_none : forall cfg de dexpr bf bt t gt te,
+  get_time_info tfs cfg t bf bt = Some (gt, te) ->
+  finish tfs zfs cfg de dexpr bf bt t None =
+  match process_zone cfg [] with
+  | POk z => POk (mkInfo de te z (dexpr ++ "T" ++ f_expr gt ++ ""))
+  | PErr x => PErr x end.
+Proof. intros. unfold finish. destruct (process_zone cfg []); [|reflexivity]. rewrite H. reflexivity. Qed.
+
+Lemma get_info_parts : forall cfg d tz fk tk dexpr de t zs,
+  contains_char "T" d = false -> contains_char "T" tz = false ->
+  date_part dfs cfg d = Some (fk, tk, dexpr, de) ->
+  split_tz tfs zfs cfg tz (bad_formats_of fk tk) (bad_types_of de) = POk (t, zs) ->
+  get_info dfs tfs zfs cfg (d ++ String "T" tz) = finish tfs zfs cfg de dexpr (bad_formats_of fk tk) (bad_types_of de) t zs.
+Proof. intros. rewrite get_info_unfold. rewrite split_two by assumption. rewrite H1, H2. reflexivity. Qed.
+
+Lemma date_part_hit : forall cfg fd gd ad,
+  hit (date_search dfs cfg ["reduced"]) fd = Some gd ->
+  simple (f_parse fd) = true -> wf_assign (f_parse fd) ad = true ->
+  String.eqb (render_toks (f_parse fd) ad) "" && c_trunc cfg = false ->
+  date_part dfs cfg (render_toks (f_parse fd) ad) = Some (f_format gd, f_type gd, f_expr gd, bindings (f_parse fd) ad).
+Proof.
+  intros cfg fd gd ad H S W N. unfold date_part. rewrite N. rewrite get_date_info_search.
+  destruct (first_match_hit _ _ _ _ H S W) as [A _]. rewrite A. reflexivity.
+Qed.
+End Info2.
+
+(* --- side conditions on token lists, all decidable on the tables --- *)
+Definition tok_name (t : ptok) : option string :=
+  match t with PLit _ => None | PDig nm _ => Some nm | PDigs nm => Some nm | PSign nm => Some nm
+             | PGrp nm _ => Some nm | PUnix nm => Some nm end.
+Definition binds (k : string) (ts : list ptok) : bool :=
+  existsb (fun t => match tok_name t with Some nm => String.eqb k nm | None => false end) ts.
+Lemma has_key_bindings : forall k ts a, has_key k (bindings ts a) = binds k ts.
+Proof.
+  unfold has_key. induction ts as [|t ts IH]; intros a; [reflexivity|].
+  destruct t; cbn [bindings binds existsb tok_name lookup_env]; try apply IH;
+    (destruct (String.eqb k _); [reflexivity|apply IH]).
+Qed.
+
+Fixpoint lit_text (ts : list ptok) : option string :=
+  match ts with
+  | [] => Some ""
+  | PLit l :: r => match lit_text r with Some x => Some (l ++ x) | None => None end
+  | PGrp _ l :: r => match lit_text r with Some x => Some (l ++ x) | None => None end
+  | _ => None
+  end.
+Lemma lit_text_render : forall ts s a, lit_text ts = Some s -> render_toks ts a = s.
+Proof.
+  induction ts as [|t ts IH]; intros s a H.
+  - inversion H. reflexivity.
+  - destruct t; try discriminate; cbn [lit_text render_toks] in *;
+      (destruct (lit_text ts) as [x|]; [|discriminate]); inversion H; rewrite (IH x a eq_refl); reflexivity.
+Qed.
+
+Definition nonempty_lead (ts : list ptok) : bool :=
+  match ts with
+  | PLit l :: _ => negb (String.eqb l "")
+  | PGrp _ l :: _ => negb (String.eqb l "")
+  | PSign _ :: _ => true
+  | PDig _ (S _) :: _ => true
+  | PDigs _ :: _ => true
+  | _ => false
+  end.
+Lemma app_nonempty : forall a b : string, String.eqb a "" = false -> String.eqb (a ++ b) "" = false.
+Proof. destruct a; simpl; intros; [discriminate|reflexivity]. Qed.
+Lemma nonempty_lead_render : forall ts a, nonempty_lead ts = true -> wf_assign ts a = true ->
+  String.eqb (render_toks ts a) "" = false.
+Proof.
+  intros ts a N W. destruct ts as [|t ts]; [discriminate|].
+  destruct t as [l|nm n|nm|nm|nm l|nm]; cbn [nonempty_lead render_toks wf_assign] in *; try discriminate;
+    apply app_nonempty.
+  - apply negb_true_iff in N. assumption.
+  - destruct n; [discriminate|]. apply andb_true_iff in W. destruct W as [W1 _].
+    apply digits_n_inv in W1. destruct (fld nm a); [destruct W1; discriminate|reflexivity].
+  - apply andb_true_iff in W. destruct W as [W1 _]. unfold digits_plus in W1.
+    apply andb_true_iff in W1. destruct W1 as [W1 _]. apply negb_true_iff in W1. assumption.
+  - apply andb_true_iff in W. destruct W as [W1 _]. apply is_sign_inv in W1. destruct W1 as [E|E]; rewrite E; reflexivity.
+  - apply negb_true_iff in N. assumption.
+Qed.
+
+Definition ascii_toks (ts : list ptok) : bool :=
+  forallb (fun t => match t with PLit l => is_ascii_str l | PGrp _ l => is_ascii_str l | PUnix _ => false | _ => true end) ts.
+Lemma is_ascii_app : forall a b, is_ascii_str (a ++ b) = is_ascii_str a && is_ascii_str b.
+Proof. unfold is_ascii_str. induction a; simpl; intros; [reflexivity|]. rewrite IHa, andb_assoc. reflexivity. Qed.
+Lemma is_digit_ascii : forall c, is_digit c = true -> Nat.ltb (nat_of_ascii c) 128 = true.
+Proof. unfold is_digit. intros c H. apply andb_true_iff in H. destruct H as [_ H]. apply Nat.leb_le in H.
+  apply Nat.ltb_lt. lia. Qed.
+Lemma digits_ascii : forall d, all_digits d = true -> is_ascii_str d = true.
+Proof. unfold is_ascii_str. induction d; simpl; intros H; [reflexivity|]. apply andb_true_iff in H. destruct H as [H1 H2].
+  rewrite is_digit_ascii, IHd by assumption. reflexivity. Qed.
+Lemma render_ascii : forall ts a, ascii_toks ts = true -> wf_assign ts a = true -> is_ascii_str (render_toks ts a) = true.
+Proof.
+  induction ts as [|t ts IH]; intros a N W; [reflexivity|].
+  cbn [ascii_toks forallb] in N. apply andb_true_iff in N. destruct N as [N1 N2]. fold (ascii_toks ts) in N2.
+  destruct t as [l|nm n|nm|nm|nm l|nm]; cbn [render_toks wf_assign] in *; rewrite is_ascii_app; try discriminate.
+  - rewrite N1, IH by assumption. reflexivity.
+  - apply andb_true_iff in W. destruct W as [W1 W2]. apply digits_n_inv in W1.
+    rewrite digits_ascii, IH by tauto. reflexivity.
+  - apply andb_true_iff in W. destruct W as [W1 W2]. unfold digits_plus in W1. apply andb_true_iff in W1.
+    rewrite digits_ascii, IH by tauto. reflexivity.
+  - apply andb_true_iff in W. destruct W as [W1 W2]. rewrite IH by assumption.
+    apply is_sign_inv in W1. destruct W1 as [E|E]; rewrite E; reflexivity.
+  - rewrite N1, IH by assumption. reflexivity.
+Qed.
+
+Lemma found_hit : forall L f, found L f = true ->
+  exists g, hit L f = Some g /\ f_expr g = f_expr f /\ f_type g = f_type f /\
+            (f_format g = f_format f \/ (f_format g = "basic" /\ f_format f = "extended")).
+Proof.
+  unfold found. intros L f F. destruct (hit L f) as [g|] eqn:H; [|discriminate]. exists g.
+  apply orb_true_iff in F. destruct F as [F|F].
+  - apply form_eqb_eq in F. subst g. repeat split; auto.
+  - unfold same_but_format in F.
+    repeat match goal with X : _ && _ = true |- _ => apply andb_true_iff in X; destruct X end.
+    repeat match goal with X : String.eqb _ _ = true |- _ => apply String.eqb_eq in X end.
+    repeat split; auto.
+Qed.
+
+Section Info3.
+Variables dfs tfs zfs : list form.
+
+Definition zone_ok (cfg : pcfg) (bf : list string) (fz : form) : bool :=
+  simple (f_parse fz) && found (zone_search zfs cfg bf) fz && ascii_toks (f_parse fz) &&
+  match f_parse fz with
+  | PSign _ :: zr => no_char "T" zr && no_char "Z" zr && no_char "+" zr && no_char "-" zr
+  | ts => match lit_text ts with Some s => String.eqb s "Z" | None => false end
+  end.
+
+(* the boolean side conditions under which the text of (date form, time form,
+   optional zone form) is decoded by get_info to exactly the three forms *)
+Definition date_ok (cfg : pcfg) (fd : form) : bool :=
+  simple (f_parse fd) && no_char "T" (f_parse fd) && ascii_toks (f_parse fd) &&
+  (negb (c_trunc cfg) || nonempty_lead (f_parse fd)) &&
+  found (date_search dfs cfg ["reduced"]) fd.
+Definition time_ok (cfg : pcfg) (bf bt : list string) (ft : form) : bool :=
+  simple (f_parse ft) && no_char "T" (f_parse ft) && ascii_toks (f_parse ft) &&
+  found (time_search tfs cfg bf bt) ft && no_char "Z" (f_parse ft) && no_char "+" (f_parse ft).
+Definition zpart_ok (cfg : pcfg) (bf : list string) (ft : form) (zo : option form) : bool :=
+  match zo with
+  | None => no_char "-" (f_parse ft)
+  | Some fz => zone_ok cfg bf fz
+  end.
+Definition trunc_types (fd : form) : list string := if binds "truncated" (f_parse fd) then [] else ["truncated"].
+Definition triple_ok (cfg : pcfg) (fd ft : form) (zo : option form) : bool :=
+  date_ok cfg fd &&
+  match hit (date_search dfs cfg ["reduced"]) fd with
+  | None => false
+  | Some gd =>
+    let bf := bad_formats_of (f_format gd) (f_type gd) in
+    time_ok cfg bf (trunc_types fd) ft && zpart_ok cfg bf ft zo
+  end.
+
+Definition zo_text (zo : option form) (az : env) : string :=
+  match zo with Some fz => render_toks (f_parse fz) az | None => "" end.
+Definition zo_bind (zo : option form) (az : env) : env :=
+  match zo with Some fz => bindings (f_parse fz) az | None => [] end.
+Definition zo_expr (zo : option form) : string := match zo with Some fz => f_expr fz | None => "" end.
+Definition zo_wf (zo : option form) (az : env) : bool :=
+  match zo with Some fz => wf_assign (f_parse fz) az | None => true end.
+
+Theorem get_info_render : forall cfg fd ft zo ad at_ az,
+  triple_ok cfg fd ft zo = true ->
+  wf_assign (f_parse fd) ad = true -> wf_assign (f_parse ft) at_ = true -> zo_wf zo az = true ->
+  get_info dfs tfs zfs cfg (render_toks (f_parse fd) ad ++ "T" ++ render_toks (f_parse ft) at_ ++ zo_text zo az) =
+  match process_zone cfg (zo_bind zo az) with
+  | POk z => POk (mkInfo (bindings (f_parse fd) ad) (bindings (f_parse ft) at_) z
+                         (f_expr fd ++ "T" ++ f_expr ft ++ zo_expr zo))
+  | PErr x => PErr x
+  end.
+Proof.
+  intros cfg fd ft zo ad at_ az OK Wd Wt Wz. unfold triple_ok, date_ok, time_ok, zpart_ok, trunc_types in OK.
+  destruct (hit (date_search dfs cfg ["reduced"]) fd) as [gd|] eqn:Hd.
+  2:{ rewrite andb_false_r in OK. discriminate. }
+  repeat match goal with X : _ && _ = true |- _ => apply andb_true_iff in X; destruct X end.
+  match goal with X : found (date_search _ _ _) fd = true |- _ =>
+    destruct (found_hit _ _ X) as [gd' [Hd' [Ed [Td _]]]] end.
+  rewrite Hd in Hd'. inversion Hd'; subst gd'. clear Hd'.
+  match goal with X : found (time_search _ _ _ _) ft = true |- _ =>
+    destruct (found_hit _ _ X) as [gt [Ht [Et _]]] end.
+  set (bf := bad_formats_of (f_format gd) (f_type gd)) in *.
+  assert (N : String.eqb (render_toks (f_parse fd) ad) "" && c_trunc cfg = false).
+  { match goal with X : negb (c_trunc cfg) || _ = true |- _ => apply orb_true_iff in X; destruct X as [NT|NL] end.
+    - apply negb_true_iff in NT. rewrite NT. apply andb_false_r.
+    - rewrite nonempty_lead_render by assumption. reflexivity. }
+  pose proof (date_part_hit dfs cfg fd gd ad Hd ltac:(assumption) Wd N) as DP.
+  assert (BT : bad_types_of (bindings (f_parse fd) ad) = if binds "truncated" (f_parse fd) then [] else ["truncated"]).
+  { unfold bad_types_of. rewrite has_key_bindings. reflexivity. }
+  set (bt := if binds "truncated" (f_parse fd) then [] else ["truncated"]) in *.
+  destruct (first_match_hit _ _ _ at_ Ht ltac:(assumption) Wt) as [TM _].
+  rewrite <- get_time_info_search in TM.
+  set (d := render_toks (f_parse fd) ad) in *. set (t := render_toks (f_parse ft) at_) in *.
+  assert (CdT : contains_char "T" d = false) by (apply render_no_char; assumption).
+  assert (CtT : contains_char "T" t = false) by (apply render_no_char; assumption).
+  assert (CtZ : contains_char "Z" t = false) by (apply render_no_char; assumption).
+  assert (CtP : contains_char "+" t = false) by (apply render_no_char; assumption).
+  change ("T" ++ t ++ zo_text zo az) with (String "T" (t ++ zo_text zo az)).
+  rewrite <- Ed, <- Et.
+  destruct zo as [fz|].
+  - (* a zone form *)
+    cbn [zo_text zo_bind zo_expr zo_wf] in *.
+    match goal with X : zone_ok _ _ _ = true |- _ => unfold zone_ok in X end.
+    repeat match goal with X : _ && _ = true |- _ => apply andb_true_iff in X; destruct X end.
+    match goal with X : found (zone_search _ _ _) fz = true |- _ =>
+      destruct (found_hit _ _ X) as [gz [Hz [Ez _]]] end.
+    destruct (first_match_hit _ _ _ az Hz ltac:(assumption) Wz) as [ZM _].
+    rewrite <- get_zone_info_search in ZM. rewrite <- Ez.
+    destruct (f_parse fz) as [|tk zr] eqn:FP.
+    + (* empty regex: lit_text = "" <> "Z" *) simpl in *. discriminate.
+    + destruct tk as [l|nm n|nm|nm|nm l|nm];
+        try (match goal with X : match lit_text _ with _ => _ end = true |- _ => cbn [lit_text] in X; discriminate X end).
+      * (* literal *)
+        match goal with X : match lit_text ?ts with _ => _ end = true |- _ =>
+          destruct (lit_text ts) as [s|] eqn:LT; [|discriminate X]; apply String.eqb_eq in X; subst s end.
+        rewrite (lit_text_render _ _ az LT) in *.
+        erewrite get_info_parts; [| assumption | | exact DP | rewrite BT; apply split_tz_Z ].
+        2:{ rewrite contains_char_app, CtT. reflexivity. }
+        rewrite BT. erewrite finish_some by eassumption. reflexivity.
+      * (* signed *)
+        repeat match goal with X : _ && _ = true |- _ => apply andb_true_iff in X; destruct X end.
+        cbn [render_toks wf_assign] in *. apply andb_true_iff in Wz. destruct Wz as [Ws Wr].
+        set (z := render_toks zr az) in *.
+        assert (CzT : contains_char "T" z = false) by (apply render_no_char; assumption).
+        assert (CzZ : contains_char "Z" z = false) by (apply render_no_char; assumption).
+        assert (CzP : contains_char "+" z = false) by (apply render_no_char; assumption).
+        assert (CzM : contains_char "-" z = false) by (apply render_no_char; assumption).
+        apply is_sign_inv in Ws. destruct Ws as [Es|Es]; rewrite Es in *;
+          change ("+" ++ z) with (String "+" z) in *; change ("-" ++ z) with (String "-" z) in *.
+        -- erewrite get_info_parts; [| assumption | | exact DP | rewrite BT; apply split_tz_plus; assumption ].
+           2:{ rewrite contains_char_app, CtT. simpl. assumption. }
+           rewrite BT. erewrite finish_some by eassumption. reflexivity.
+        -- erewrite get_info_parts; [| assumption | | exact DP | rewrite BT; eapply split_tz_minus; eassumption ].
+           2:{ rewrite contains_char_app, CtT. simpl. assumption. }
+           rewrite BT. erewrite finish_some by eassumption. reflexivity.
+      * (* group literal *)
+        match goal with X : match lit_text ?ts with _ => _ end = true |- _ =>
+          destruct (lit_text ts) as [s|] eqn:LT; [|discriminate X]; apply String.eqb_eq in X; subst s end.
+        rewrite (lit_text_render _ _ az LT) in *.
+        erewrite get_info_parts; [| assumption | | exact DP | rewrite BT; apply split_tz_Z ].
+        2:{ rewrite contains_char_app, CtT. reflexivity. }
+        rewrite BT. erewrite finish_some by eassumption. reflexivity.
+  - (* no zone *)
+    cbn [zo_text zo_bind zo_expr] in *. rewrite sapp_nil_r.
+    assert (CtM : contains_char "-" t = false) by (apply render_no_char; assumption).
+    erewrite get_info_parts; [| assumption | assumption | exact DP | rewrite BT; apply split_tz_none; assumption ].
+    rewrite BT. erewrite finish_none by eassumption. reflexivity.
+Qed.
+End Info3.
+
+
+(* --- a date alone --- *)
+Theorem get_info_date_only : forall dfs tfs zfs cfg fd ad,
+  simple (f_parse fd) = true -> no_char "T" (f_parse fd) = true ->
+  found (date_search dfs cfg []) fd = true -> wf_assign (f_parse fd) ad = true ->
+  get_info dfs tfs zfs cfg (render_toks (f_parse fd) ad) =
+  match process_zone cfg [] with
+  | POk z => POk (mkInfo (bindings (f_parse fd) ad) [] z (f_expr fd))
+  | PErr x => PErr x end.
+Proof.
+  intros dfs tfs zfs cfg fd ad S N F W. rewrite get_info_unfold.
+  unfold split_str. rewrite split_on_nochar by (apply render_no_char; assumption). cbn [append].
+  destruct (found_hit _ _ F) as [g [H [E _]]].
+  destruct (first_match_hit _ _ _ ad H S W) as [M _]. rewrite get_date_info_search, M, E. reflexivity.
+Qed.
+
+(* --- reflection: every combination the tables offer satisfies triple_ok --- *)
+Definition all_cfgs : list pcfg :=
+  flat_map (fun ned => flat_map (fun tr => map (fun ba => cfg_of ned tr ba) bools) bools) [0; 2; 3]%Z.
+(* zone choices offered after a time form: none (only when the time text has no
+   "-", i.e. is not truncated) or any zone form of the allowed formats *)
+Definition zone_choices (cfg : pcfg) (bf : list string) (ft : form) : list (option form) :=
+  ((if String.eqb (f_type ft) "truncated" then [] else [None]) ++ map Some (zone_search ZONE_FORMS cfg bf))%list.
+Definition bf_choices : list (list string) := [[]; ["extended"]; ["basic"]].
+Definition bt_choices : list (list string) := [[]; ["truncated"]].
+Definition table_triples_ok (cfg : pcfg) : bool :=
+  let dfs := date_forms_of (c_ned cfg) in
+  let DL := date_search dfs cfg ["reduced"] in
+  forallb (fun fd => date_ok dfs cfg fd && match hit DL fd with None => false | Some _ => true end) DL &&
+  forallb (fun bf => forallb (fun bt =>
+    forallb (fun ft => time_ok TIME_FORMS cfg bf bt ft &&
+                       forallb (fun zo => zpart_ok ZONE_FORMS cfg bf ft zo) (zone_choices cfg bf ft))
+            (time_search TIME_FORMS cfg bf bt)) bt_choices) bf_choices.
+Theorem tables_triples : forallb table_triples_ok all_cfgs = true.
+Proof. vm_compute. reflexivity. Qed.
+
+Lemma bad_formats_of_choice : forall fk tk, In (bad_formats_of fk tk) bf_choices.
+Proof. intros. unfold bad_formats_of, bf_choices.
+  destruct (String.eqb tk "truncated"); [simpl; auto|].
+  destruct (String.eqb fk "basic"); [simpl; auto|]. destruct (String.eqb fk "extended"); simpl; auto. Qed.
+Lemma trunc_types_choice : forall fd, In (trunc_types fd) bt_choices.
+Proof. intros. unfold trunc_types, bt_choices. destruct (binds "truncated" (f_parse fd)); simpl; auto. Qed.
+
+Theorem triple_ok_tables : forall (cfg : pcfg) (fd ft : form) (zo : option form),
+  In cfg all_cfgs ->
+  let dfs := date_forms_of (c_ned cfg) in
+  In fd (date_search dfs cfg ["reduced"]) ->
+  exists gd, hit (date_search dfs cfg ["reduced"]) fd = Some gd /\
+  let bf := bad_formats_of (f_format gd) (f_type gd) in
+  (In ft (time_search TIME_FORMS cfg bf (trunc_types fd)) ->
+   In zo (zone_choices cfg bf ft) ->
+   triple_ok dfs TIME_FORMS ZONE_FORMS cfg fd ft zo = true).
+Proof.
+  intros cfg fd ft zo IC dfs ID.
+  pose proof tables_triples as T. rewrite forallb_forall in T. specialize (T cfg IC).
+  unfold table_triples_ok in T. fold dfs in T. apply andb_true_iff in T. destruct T as [TD TT].
+  rewrite forallb_forall in TD. specialize (TD fd ID).
+  apply andb_true_iff in TD. destruct TD as [T1 T2].
+  destruct (hit (date_search dfs cfg ["reduced"]) fd) as [gd|] eqn:H; [|discriminate].
+  exists gd. split; [reflexivity|]. intros bf IT IZ.
+  rewrite forallb_forall in TT. specialize (TT bf (bad_formats_of_choice _ _)).
+  rewrite forallb_forall in TT. specialize (TT _ (trunc_types_choice fd)).
+  rewrite forallb_forall in TT. specialize (TT ft IT). apply andb_true_iff in TT. destruct TT as [T3 T4].
+  rewrite forallb_forall in T4. specialize (T4 zo IZ).
+  unfold triple_ok. fold dfs. rewrite T1, H. fold bf. rewrite T3, T4. reflexivity.
+Qed.
+
+(* --- the whole parser on a rendered text: the constructor is applied to the bindings --- *)
+Lemma triple_ok_ascii : forall dfs tfs zfs cfg fd ft zo, triple_ok dfs tfs zfs cfg fd ft zo = true ->
+  ascii_toks (f_parse fd) = true /\ ascii_toks (f_parse ft) = true /\
+  match zo with Some fz => ascii_toks (f_parse fz) = true | None => True end.
+Proof.
+  intros dfs tfs zfs cfg fd ft zo OK. unfold triple_ok, date_ok, time_ok, zpart_ok in OK.
+  destruct (hit (date_search dfs cfg ["reduced"]) fd); [|rewrite andb_false_r in OK; discriminate].
+  repeat match goal with X : _ && _ = true |- _ => apply andb_true_iff in X; destruct X end.
+  split; [assumption|]. split; [assumption|]. destruct zo as [fz|]; [|exact I].
+  match goal with X : zone_ok _ _ _ _ = true |- _ => unfold zone_ok in X end.
+  repeat match goal with X : _ && _ = true |- _ => apply andb_true_iff in X; destruct X end. assumption.
+Qed.
+
+Theorem parse_text_render : forall md cfg fd ft zo ad at_ az asp,
+  triple_ok (date_forms_of (c_ned cfg)) TIME_FORMS ZONE_FORMS cfg fd ft zo = true ->
+  wf_assign (f_parse fd) ad = true -> wf_assign (f_parse ft) at_ = true -> zo_wf zo az = true ->
+  parse_text md cfg (render_toks (f_parse fd) ad ++ "T" ++ render_toks (f_parse ft) at_ ++ zo_text zo az) asp =
+  match process_zone cfg (zo_bind zo az) with
+  | POk z => let e := f_expr fd ++ "T" ++ f_expr ft ++ zo_expr zo in
+             create_timepoint md cfg (mkInfo (bindings (f_parse fd) ad) (bindings (f_parse ft) at_) z e)
+                              (if asp then e else "") false
+  | PErr x => PErr x
+  end.
+Proof.
+  intros md cfg fd ft zo ad at_ az asp OK Wd Wt Wz. unfold parse_text.
+  destruct (triple_ok_ascii _ _ _ _ _ _ _ OK) as [A1 [A2 A3]].
+  assert (A : is_ascii_str (render_toks (f_parse fd) ad ++ "T" ++ render_toks (f_parse ft) at_ ++ zo_text zo az) = true).
+  { rewrite !is_ascii_app. rewrite !render_ascii by assumption.
+    destruct zo as [fz|]; cbn [zo_text]; [rewrite render_ascii by assumption|]; reflexivity. }
+  rewrite A. cbn [negb]. rewrite (get_info_render _ _ _ _ _ _ _ _ _ _ OK Wd Wt Wz).
+  destruct (process_zone cfg (zo_bind zo az)); reflexivity.
+Qed.
+
+(* --- numeric values of digit strings --- *)
+Definition dnum (s : string) : Z := match read_Z s with Some z => z | None => 0%Z end.
+Lemma is_digit_char : forall c d, is_digit c = true -> exists d', DecimalString.uint_of_char c (Some d) = Some d'.
+Proof.
+  intros c d H. destruct c as [b0 b1 b2 b3 b4 b5 b6 b7].
+  destruct b0, b1, b2, b3, b4, b5, b6, b7; cbv in H; try discriminate H; eexists; reflexivity.
+Qed.
+Lemma uint_digits : forall s, all_digits s = true -> exists u, DecimalString.NilEmpty.uint_of_string s = Some u.
+Proof.
+  induction s as [|c s IH]; intros H; [eexists; reflexivity|].
+  simpl in H. apply andb_true_iff in H. destruct H as [H1 H2]. destruct (IH H2) as [u E].
+  cbn [DecimalString.NilEmpty.uint_of_string]. rewrite E. apply is_digit_char. assumption.
+Qed.
+Lemma read_Z_digits : forall s, digits_plus s = true -> read_Z s = Some (dnum s).
+Proof.
+  intros s H. unfold dnum. destruct (read_Z s) eqn:E; [reflexivity|]. exfalso.
+  unfold digits_plus in H. apply andb_true_iff in H. destruct H as [N A].
+  destruct s as [|c s]; [discriminate|]. destruct (uint_digits _ A) as [u U].
+  unfold read_Z, DecimalString.NilZero.int_of_string in E.
+  assert (M : Ascii.eqb c "-" = false).
+  { destruct (Ascii.eqb c "-") eqn:X; [|reflexivity]. apply Ascii.eqb_eq in X. subst c.
+    simpl in A. discriminate. }
+  rewrite M in E. unfold DecimalString.NilZero.uint_of_string in E. rewrite U in E. discriminate.
+Qed.
+
+
+(* ------------------------------------------------------------------ *)
+(* 6. from bindings to numbers: create_timepoint on digit strings      *)
+(* ------------------------------------------------------------------ *)
+Definition DATE_KEYS : list string :=
+  ["year_of_decade"; "year_of_century"; "century"; "expanded_year"; "month_of_year"; "day_of_month";
+   "day_of_year"; "week_of_year"; "day_of_week"].
+Definition TIME_KEYS : list string :=
+  ["hour_of_day"; "hour_of_day_decimal"; "minute_of_hour"; "minute_of_hour_decimal";
+   "second_of_minute"; "second_of_minute_decimal"].
+Definition ZONE_KEYS : list string := ["time_zone_hour"; "time_zone_minute"].
+
+(* every numeric key is bound to a non-empty digit string *)
+Definition digit_env (keys : list string) (e : env) : Prop :=
+  forall k s, In k keys -> lookup_env k e = Some s -> digits_plus s = true.
+Definition num_keys_ok (keys : list string) (ts : list ptok) : bool :=
+  forallb (fun t => match t with
+                    | PLit _ => true
+                    | PDig nm O => negb (mem nm keys)
+                    | PDig _ (S _) => true
+                    | PDigs _ => true
+                    | PSign nm => negb (mem nm keys)
+                    | PGrp nm _ => negb (mem nm keys)
+                    | PUnix nm => negb (mem nm keys)
+                    end) ts.
+Lemma In_mem : forall k keys, In k keys -> mem k keys = true.
+Proof. unfold mem. intros k keys H. apply existsb_exists. exists k. split; [assumption|apply String.eqb_refl]. Qed.
+Lemma bindings_digit_env : forall keys ts a,
+  num_keys_ok keys ts = true -> wf_assign ts a = true -> digit_env keys (bindings ts a).
+Proof.
+  intros keys ts a. induction ts as [|t ts IH]; intros N W k s K L; [discriminate|].
+  cbn [num_keys_ok forallb] in N. apply andb_true_iff in N. destruct N as [N1 N2]. fold (num_keys_ok keys ts) in N2.
+  destruct t as [l|nm n|nm|nm|nm l|nm]; cbn [bindings wf_assign lookup_env] in *.
+  - eapply IH; eassumption.
+  - apply andb_true_iff in W. destruct W as [W1 W2].
+    destruct (String.eqb k nm) eqn:E; [|eapply IH; eassumption].
+    apply String.eqb_eq in E. subst nm. inversion L; subst s. destruct n.
+    + rewrite (In_mem _ _ K) in N1. discriminate.
+    + apply digits_n_inv in W1. destruct W1 as [W1 W3]. unfold digits_plus. rewrite W3.
+      destruct (fld k a); [discriminate|reflexivity].
+  - apply andb_true_iff in W. destruct W as [W1 W2].
+    destruct (String.eqb k nm) eqn:E; [|eapply IH; eassumption].
+    apply String.eqb_eq in E. subst nm. inversion L; subst s. assumption.
+  - apply andb_true_iff in W. destruct W as [W1 W2].
+    destruct (String.eqb k nm) eqn:E; [|eapply IH; eassumption].
+    apply String.eqb_eq in E. subst nm. rewrite (In_mem _ _ K) in N1. discriminate.
+  - destruct (String.eqb k nm) eqn:E; [|eapply IH; eassumption].
+    apply String.eqb_eq in E. subst nm. rewrite (In_mem _ _ K) in N1. discriminate.
+  - destruct (String.eqb k nm) eqn:E; [|eapply IH; eassumption].
+    apply String.eqb_eq in E. subst nm. rewrite (In_mem _ _ K) in N1. discriminate.
+Qed.
+
+Definition nz (e : env) (k : string) : option Z := option_map dnum (lookup_env k e).
+Definition nq (e : env) (k : string) : option Q := option_map (fun s => qz (dnum s)) (lookup_env k e).
+(* "0." ++ s as a rational *)
+Definition frac_of (s : string) : Q := Qred (Qmake (dnum s) (Pos.pow 10 (Pos.of_nat (String.length s)))).
+Definition ndec (e : env) (k : string) : option Q := option_map frac_of (lookup_env k e).
+Definition od (o : option Z) : Z := match o with Some v => v | None => 0%Z end.
+
+Lemma oz_num : forall keys e k, digit_env keys e -> In k keys -> oz e k = POk (nz e k).
+Proof. intros keys e k D K. unfold oz, nz, digits_to_Z. destruct (lookup_env k e) as [s|] eqn:L; [|reflexivity].
+  rewrite read_Z_digits by (eapply D; eassumption). reflexivity. Qed.
+Lemma oq_num : forall keys e k, digit_env keys e -> In k keys -> oq e k = POk (nq e k).
+Proof. intros keys e k D K. unfold oq, nq, digits_to_Z. destruct (lookup_env k e) as [s|] eqn:L; [|reflexivity].
+  rewrite read_Z_digits by (eapply D; eassumption). reflexivity. Qed.
+Lemma odec_num : forall keys e k, digit_env keys e -> In k keys -> odec e k = POk (ndec e k).
+Proof. intros keys e k D K. unfold odec, ndec, decimal_of, frac_of. destruct (lookup_env k e) as [s|] eqn:L; [|reflexivity].
+  rewrite read_Z_digits by (eapply D; eassumption). reflexivity. Qed.
+
+(* the zone arguments the constructor receives *)
+Definition zn_of (z : zinfo) : pres (option (Z * option Z)) :=
+  match z with
+  | ZNone => POk None
+  | ZUtc => POk (Some (0, Some 0))%Z
+  | ZVal h m => hz <-- zfield h ;;;
+                (match m with
+                 | None => POk (Some (hz, None))
+                 | Some mv => mz <-- zfield mv ;;; POk (Some (hz, Some mz)) end)
+  end.
+
+(* _create_timepoint_from_info with every int() replaced by the number the
+   digit string denotes: the constructor call the parser makes *)
+Definition point_num (md : mode) (cfg : pcfg) (d t : env) (zn : option (Z * option Z))
+           (dump_format : string) (is_duration : bool) : pres ptp :=
+  let has := fun k => has_key k d in
+  let trunc0 := has "truncated" in
+  let tprop0 := if trunc0 then (if has "year_of_century" then "year_of_century"
+                                else if has "year_of_decade" then "year_of_decade" else "")
+                else if negb (has "century") && has "year_of_century" then "year_of_century" else "" in
+  let trunc1 := trunc0 || (negb trunc0 && negb (has "century") && has "year_of_century") in
+  let year_present := negb trunc1 || has "year_of_decade" || has "century" || has "year_of_century" ||
+                      has "expanded_year" || has "year_sign" in
+  let yr := if year_present then
+              let y := (od (nz d "year_of_decade") + od (nz d "year_of_century") +
+                        100 * od (nz d "century") + 10000 * od (nz d "expanded_year"))%Z in
+              let neg := match lookup_env "year_sign" d with Some s => String.eqb s "-" | None => false end in
+              Some (if neg then (- y)%Z else y)
+            else None in
+  let tprop := if has "year_of_decade" && year_present then "year_of_decade" else tprop0 in
+  let ned := match lookup_env "expanded_year" d with
+             | Some s => if String.eqb s "" then 0%Z else c_ned cfg | None => 0%Z end in
+  let trunc := trunc1 || has_key "truncated" t in
+  construct md yr (nz d "month_of_year") (nz d "day_of_month") (nz d "day_of_year")
+            (nz d "week_of_year") (nz d "day_of_week")
+            (nq t "hour_of_day") (ndec t "hour_of_day_decimal")
+            (nq t "minute_of_hour") (ndec t "minute_of_hour_decimal")
+            (nq t "second_of_minute") (ndec t "second_of_minute_decimal")
+            zn trunc tprop ned dump_format is_duration.
+
+Ltac in_keys := unfold DATE_KEYS, TIME_KEYS, ZONE_KEYS; simpl; tauto.
+
+Theorem create_timepoint_num : forall md cfg i fmt dur,
+  digit_env DATE_KEYS (i_date i) -> digit_env TIME_KEYS (i_time i) ->
+  create_timepoint md cfg i fmt dur =
+  (zn <-- zn_of (i_zone i) ;;; point_num md cfg (i_date i) (i_time i) zn fmt dur).
+Proof.
+  intros md cfg i fmt dur DD DT. unfold create_timepoint, point_num.
+  set (d := i_date i) in *. set (t := i_time i) in *.
+  rewrite (oz_num _ _ "year_of_decade" DD) by in_keys.
+  rewrite (oz_num _ _ "year_of_century" DD) by in_keys.
+  rewrite (oz_num _ _ "century" DD) by in_keys.
+  rewrite (oz_num _ _ "month_of_year" DD) by in_keys.
+  rewrite (oz_num _ _ "day_of_month" DD) by in_keys.
+  rewrite (oz_num _ _ "day_of_year" DD) by in_keys.
+  rewrite (oz_num _ _ "week_of_year" DD) by in_keys.
+  rewrite (oz_num _ _ "day_of_week" DD) by in_keys.
+  rewrite (oq_num _ _ "hour_of_day" DT) by in_keys.
+  rewrite (oq_num _ _ "minute_of_hour" DT) by in_keys.
+  rewrite (oq_num _ _ "second_of_minute" DT) by in_keys.
+  rewrite (odec_num _ _ "hour_of_day_decimal" DT) by in_keys.
+  rewrite (odec_num _ _ "minute_of_hour_decimal" DT) by in_keys.
+  rewrite (odec_num _ _ "second_of_minute_decimal" DT) by in_keys.
+  assert (EX : match lookup_env "expanded_year" d with
+               | Some s => match digits_to_Z s with Some z => POk z | None => PErr EValue end
+               | None => POk 0%Z end = POk (od (nz d "expanded_year"))).
+  { unfold nz, digits_to_Z. destruct (lookup_env "expanded_year" d) as [s|] eqn:L; [|reflexivity].
+    rewrite read_Z_digits by (eapply DD; [|eassumption]; in_keys). reflexivity. }
+  rewrite EX. cbn [pbind].
+  match goal with |- context [if ?yp then _ else POk None] => destruct yp end; cbn [pbind];
+    unfold zn_of; destruct (i_zone i) as [| |h m]; cbn [pbind]; try reflexivity;
+    destruct (zfield h); cbn [pbind]; try reflexivity;
+    destruct m as [mv|]; cbn [pbind]; try reflexivity; destruct (zfield mv); reflexivity.
+Qed.
+
+(* process_time_zone_info followed by the constructor's zone arguments, numerically *)
+Definition zone_num (cfg : pcfg) (ze : env) : pres (option (Z * option Z)) :=
+  match ze with
+  | [] =>
+    match c_assumed cfg with
+    | None => if c_unknown cfg then POk None else POk (Some (fst (c_local cfg), Some (snd (c_local cfg))))
+    | Some (h, m) => POk (Some (h, Some m))
+    end
+  | _ =>
+    if has_key "time_zone_utc" ze then POk (Some (0, Some 0))%Z
+    else match nz ze "time_zone_hour" with
+         | None => PErr EValue
+         | Some h =>
+           let neg := match lookup_env "time_zone_sign" ze with Some s => String.eqb s "-" | None => false end in
+           let sg := fun v : Z => if neg then (- v)%Z else v in
+           POk (Some (sg h, option_map sg (nz ze "time_zone_minute")))
+         end
+  end.
+Lemma zone_num_ok : forall cfg ze, digit_env ZONE_KEYS ze ->
+  (z <-- process_zone cfg ze ;;; zn_of z) = zone_num cfg ze.
+Proof.
+  intros cfg ze D. unfold process_zone, zone_num. destruct ze as [|b ze'].
+  - destruct (c_assumed cfg) as [[h m]|]; [reflexivity|]. destruct (c_unknown cfg); reflexivity.
+  - set (ze := b :: ze') in *. destruct (has_key "time_zone_utc" ze); [reflexivity|].
+    unfold nz. destruct (lookup_env "time_zone_hour" ze) as [h|] eqn:LH; [|reflexivity].
+    assert (RH : read_Z h = Some (dnum h)) by (apply read_Z_digits; eapply D; [|eassumption]; in_keys).
+    destruct (lookup_env "time_zone_minute" ze) as [m|] eqn:LM.
+    + assert (RM : read_Z m = Some (dnum m)) by (apply read_Z_digits; eapply D; [|eassumption]; in_keys).
+      destruct (match lookup_env "time_zone_sign" ze with Some s => String.eqb s "-" | None => false end);
+        cbn [neg_field option_map pbind zn_of zfield]; unfold digits_to_Z; rewrite ?RH, ?RM; reflexivity.
+    + destruct (match lookup_env "time_zone_sign" ze with Some s => String.eqb s "-" | None => false end);
+        cbn [neg_field option_map pbind zn_of zfield]; unfold digits_to_Z; rewrite ?RH; reflexivity.
+Qed.
+
+(* the keys the constructor reads are bound to non-empty digit strings by
+   every form (the sign-prefixed forms of the 0-expanded-digit table bind
+   "expanded_year" to the empty string and are excluded: see C07 notes) *)
+Theorem tables_num_keys :
+  forallb (fun f => num_keys_ok DATE_KEYS (f_parse f)) (DATE_FORMS_2 ++ DATE_FORMS_3)%list = true /\
+  forallb (fun f => num_keys_ok DATE_KEYS (f_parse f) || binds "expanded_year" (f_parse f)) DATE_FORMS_0 = true /\
+  forallb (fun f => num_keys_ok TIME_KEYS (f_parse f)) TIME_FORMS = true /\
+  forallb (fun f => num_keys_ok ZONE_KEYS (f_parse f)) ZONE_FORMS = true.
+Proof. vm_compute. repeat split; reflexivity. Qed.
+
+Definition zo_keys_ok (zo : option form) : bool :=
+  match zo with Some fz => num_keys_ok ZONE_KEYS (f_parse fz) | None => true end.
+
+(* END TO END (generic): the parser, on the text of any allowed combination
+   of forms, calls the TimePoint constructor with the numbers the digit
+   groups denote *)
+Theorem parse_text_num : forall md cfg fd ft zo ad at_ az asp,
+  triple_ok (date_forms_of (c_ned cfg)) TIME_FORMS ZONE_FORMS cfg fd ft zo = true ->
+  num_keys_ok DATE_KEYS (f_parse fd) = true -> num_keys_ok TIME_KEYS (f_parse ft) = true -> zo_keys_ok zo = true ->
+  wf_assign (f_parse fd) ad = true -> wf_assign (f_parse ft) at_ = true -> zo_wf zo az = true ->
+  parse_text md cfg (render_toks (f_parse fd) ad ++ "T" ++ render_toks (f_parse ft) at_ ++ zo_text zo az) asp =
+  (zn <-- zone_num cfg (zo_bind zo az) ;;;
+   point_num md cfg (bindings (f_parse fd) ad) (bindings (f_parse ft) at_) zn
+             (if asp then f_expr fd ++ "T" ++ f_expr ft ++ zo_expr zo else "") false).
+Proof.
+  intros md cfg fd ft zo ad at_ az asp OK Kd Kt Kz Wd Wt Wz.
+  rewrite (parse_text_render _ _ _ _ _ _ _ _ _ OK Wd Wt Wz).
+  rewrite <- zone_num_ok.
+  2:{ destruct zo as [fz|]; cbn [zo_bind zo_keys_ok zo_wf] in *; [apply bindings_digit_env; assumption|].
+      intros k s _ L. discriminate. }
+  destruct (process_zone cfg (zo_bind zo az)) as [z|x]; [|reflexivity]. cbn [pbind].
+  cbv zeta. rewrite create_timepoint_num; [reflexivity| |]; cbn [i_date i_time]; apply bindings_digit_env; assumption.
+Qed.
+
+Definition F_CAL_EXT : form :=
+  mkForm "extended" "complete" "CCYY-MM-DD" [PDig "century" 2; PDig "year_of_century" 2; PLit "-"; PDig "month_of_year" 2; PLit "-"; PDig "day_of_month" 2] [DNum "century" 2; DNum "year_of_century" 2; DLit "-"; DNum "month_of_year" 2; DLit "-"; DNum "day_of_month" 2] ["century"; "year_of_century"; "month_of_year"; "day_of_month"].
+Definition F_HMS_EXT : form :=
+  mkForm "extended" "complete" "hh:mm:ss" [PDig "hour_of_day" 2; PLit ":"; PDig "minute_of_hour" 2; PLit ":"; PDig "second_of_minute" 2] [DNum "hour_of_day" 2; DLit ":"; DNum "minute_of_hour" 2; DLit ":"; DNum "second_of_minute" 2] ["minute_of_hour"; "hour_of_day"; "second_of_minute"].
+Definition F_Z_EXT : form := mkForm "extended" "" "Z" [PGrp "time_zone_utc" "Z"] [DLit "Z"] [].
+
+(* END TO END (flagship instance, explicit text and fields): the extended
+   complete calendar date, "T", hh:mm:ss, "Z" *)
+Theorem decode_ext_calendar_hms_utc : forall md cc yy mo dd hh mi ss,
+  digits_n 2 cc = true -> digits_n 2 yy = true -> digits_n 2 mo = true -> digits_n 2 dd = true ->
+  digits_n 2 hh = true -> digits_n 2 mi = true -> digits_n 2 ss = true ->
+  parse_text md (default_cfg 2) ((cc ++ yy ++ "-" ++ mo ++ "-" ++ dd) ++ "T" ++ (hh ++ ":" ++ mi ++ ":" ++ ss) ++ "Z") true =
+  let p := mkPtp (Some (dnum yy + 100 * dnum cc)%Z) (Some (dnum mo)) (Some (dnum dd)) None None None
+                 (Some (qz (dnum hh))) (Some (qz (dnum mi))) (Some (qz (dnum ss))) (Some (mkZone 0 0))
+                 false "" 0 "CCYY-MM-DDThh:mm:ssZ" in
+  if check_bounds md p then POk p else PErr EBadInput.
+Proof.
+  intros md cc yy mo dd hh mi ss Hcc Hyy Hmo Hdd Hhh Hmi Hss.
+  pose (ad := [("century", cc); ("year_of_century", yy); ("month_of_year", mo); ("day_of_month", dd)]).
+  pose (at_ := [("hour_of_day", hh); ("minute_of_hour", mi); ("second_of_minute", ss)]).
+  assert (OK : triple_ok (date_forms_of (c_ned (default_cfg 2))) TIME_FORMS ZONE_FORMS (default_cfg 2) F_CAL_EXT F_HMS_EXT (Some F_Z_EXT) = true)
+    by (vm_compute; reflexivity).
+  assert (Wd : wf_assign (f_parse F_CAL_EXT) ad = true).
+  { cbn [wf_assign F_CAL_EXT f_parse ad fld lookup_env String.eqb Ascii.eqb Bool.eqb]. rewrite Hcc, Hyy, Hmo, Hdd. reflexivity. }
+  assert (Wt : wf_assign (f_parse F_HMS_EXT) at_ = true).
+  { cbn [wf_assign F_HMS_EXT f_parse at_ fld lookup_env String.eqb Ascii.eqb Bool.eqb]. rewrite Hhh, Hmi, Hss. reflexivity. }
+  pose proof (parse_text_num md (default_cfg 2) F_CAL_EXT F_HMS_EXT (Some F_Z_EXT) ad at_ [] true OK
+     ltac:(vm_compute; reflexivity) ltac:(vm_compute; reflexivity) ltac:(vm_compute; reflexivity) Wd Wt ltac:(reflexivity)) as P.
+  cbn [render_toks F_CAL_EXT F_HMS_EXT F_Z_EXT f_parse f_expr ad at_ fld lookup_env String.eqb Ascii.eqb Bool.eqb
+       zo_text zo_bind zo_expr bindings] in P.
+  rewrite !sapp_nil_r in P. rewrite P. clear P.
+  change (zone_num (default_cfg 2) [("time_zone_utc", "Z")]) with (@POk (option (Z * option Z)) (Some (0, Some 0))%Z).
+  cbn [pbind]. unfold point_num.
+  cbn [has_key lookup_env String.eqb Ascii.eqb Bool.eqb nz nq ndec option_map od negb orb andb append default_cfg c_ned].
+  replace (0 + dnum yy + 100 * dnum cc + 10000 * 0)%Z with (dnum yy + 100 * dnum cc)%Z by lia.
+  unfold construct. cbn [pbind negb andb orb truthy Z.leb Z.ltb Z.compare Pos.compare Pos.compare_cont Z.opp].
+  rewrite !andb_false_r. cbn [negb andb orb].
+  reflexivity.
+Qed.
+
+
+(* ------------------------------------------------------------------ *)
+(* 7. date forms decoded; basic-only parsers; no basic/extended mixing *)
+(* ------------------------------------------------------------------ *)
+Theorem get_date_info_render : forall dfs cfg f a bad,
+  reach (date_search dfs cfg bad) f = true -> simple (f_parse f) = true -> wf_assign (f_parse f) a = true ->
+  get_date_info dfs cfg (render_toks (f_parse f) a) bad = Some (f, bindings (f_parse f) a).
+Proof. intros. rewrite get_date_info_search. apply first_match_reach; assumption. Qed.
+
+Theorem complete_dates_reach :
+  forallb (fun bad => forallb (fun f => negb (String.eqb (f_type f) "complete") ||
+                                        (simple (f_parse f) && reach (date_search DATE_FORMS_2 (default_cfg 2) bad) f))
+                              DATE_FORMS_2) [[]; ["reduced"]] = true.
+Proof. vm_compute. reflexivity. Qed.
+
+Theorem decode_date_complete : forall f a bad,
+  In f DATE_FORMS_2 -> f_type f = "complete" -> In bad [[]; ["reduced"]] ->
+  wf_assign (f_parse f) a = true ->
+  get_date_info DATE_FORMS_2 (default_cfg 2) (render_toks (f_parse f) a) bad = Some (f, bindings (f_parse f) a).
+Proof.
+  intros f a bad I T B W. pose proof complete_dates_reach as R.
+  rewrite forallb_forall in R. specialize (R bad B). rewrite forallb_forall in R. specialize (R f I).
+  rewrite T in R. cbn [String.eqb Ascii.eqb Bool.eqb negb orb] in R.
+  apply andb_true_iff in R. destruct R as [S R]. apply get_date_info_render; assumption.
+Qed.
+
+(* --- a basic-only parser searches basic forms only --- *)
+Lemma date_search_In : forall dfs cfg bad f, In f (date_search dfs cfg bad) ->
+  In f dfs /\ In (f_format f) (formats_of cfg).
+Proof.
+  intros dfs cfg bad f H. unfold date_search in H. apply in_flat_map in H. destruct H as [fk [K H]].
+  apply in_flat_map in H. destruct H as [tk [_ H]]. apply filter_In in H. destruct H as [I E].
+  apply andb_true_iff in E. destruct E as [E _]. apply String.eqb_eq in E. rewrite E. auto.
+Qed.
+Lemma time_search_In : forall tfs cfg bf bt f, In f (time_search tfs cfg bf bt) ->
+  In f tfs /\ In (f_format f) (formats_of cfg) /\ mem (f_format f) bf = false.
+Proof.
+  intros tfs cfg bf bt f H. unfold time_search in H. apply in_flat_map in H. destruct H as [fk [K H]].
+  destruct (mem fk bf) eqn:M; [destruct H|].
+  apply in_flat_map in H. destruct H as [tk [_ H]]. destruct (mem tk bt); [destruct H|].
+  apply filter_In in H. destruct H as [I E].
+  apply andb_true_iff in E. destruct E as [E _]. apply String.eqb_eq in E. rewrite E. auto.
+Qed.
+Lemma zone_search_In : forall zfs cfg bf f, In f (zone_search zfs cfg bf) ->
+  In f zfs /\ In (f_format f) (formats_of cfg) /\ mem (f_format f) bf = false.
+Proof.
+  intros zfs cfg bf f H. unfold zone_search in H. apply in_flat_map in H. destruct H as [fk [K H]].
+  destruct (mem fk bf) eqn:M; [destruct H|].
+  apply filter_In in H. destruct H as [I E]. apply String.eqb_eq in E. rewrite E. auto.
+Qed.
+Lemma formats_of_basic : forall cfg k, c_basic cfg = true -> In k (formats_of cfg) -> k = "basic".
+Proof. unfold formats_of. intros cfg k B H. rewrite B in H. destruct H as [H|[]]. auto. Qed.
+
+Theorem basic_only_searches : forall dfs tfs zfs cfg, c_basic cfg = true ->
+  (forall bad f, In f (date_search dfs cfg bad) -> f_format f = "basic") /\
+  (forall bf bt f, In f (time_search tfs cfg bf bt) -> f_format f = "basic") /\
+  (forall bf f, In f (zone_search zfs cfg bf) -> f_format f = "basic").
+Proof.
+  intros dfs tfs zfs cfg B. repeat split; intros.
+  - apply date_search_In in H. apply (formats_of_basic cfg); tauto.
+  - apply time_search_In in H. apply (formats_of_basic cfg); tauto.
+  - apply zone_search_In in H. apply (formats_of_basic cfg); tauto.
+Qed.
+
+(* fe is extended-only in table L: no basic form of L can match its texts *)
+Definition ext_only (L : list form) (fe : form) : bool :=
+  forallb (fun g => negb (String.eqb (f_format g) "basic") || shape_disjoint (f_parse g) (f_parse fe)) L.
+
+Lemma ext_only_none : forall L S fe a,
+  ext_only L fe = true -> (forall g, In g S -> In g L /\ f_format g = "basic") ->
+  simple (f_parse fe) = true -> wf_assign (f_parse fe) a = true ->
+  first_match S (render_toks (f_parse fe) a) = None.
+Proof.
+  intros L S fe a E Sub Si W. apply first_match_none; try assumption.
+  apply forallb_forall. intros g I. destruct (Sub g I) as [IL B].
+  unfold ext_only in E. rewrite forallb_forall in E. specialize (E g IL). rewrite B in E. exact E.
+Qed.
+
+Theorem basic_only_refuses : forall dfs tfs zfs cfg fe a,
+  c_basic cfg = true -> simple (f_parse fe) = true -> wf_assign (f_parse fe) a = true ->
+  (ext_only dfs fe = true -> forall bad, get_date_info dfs cfg (render_toks (f_parse fe) a) bad = None) /\
+  (ext_only tfs fe = true -> forall bf bt, get_time_info tfs cfg (render_toks (f_parse fe) a) bf bt = None) /\
+  (ext_only zfs fe = true -> forall bf, get_zone_info zfs cfg (render_toks (f_parse fe) a) bf = None).
+Proof.
+  intros dfs tfs zfs cfg fe a B S W. destruct (basic_only_searches dfs tfs zfs cfg B) as [PD [PT PZ]].
+  repeat split; intros E; intros.
+  - rewrite get_date_info_search. apply (ext_only_none dfs); try assumption.
+    intros g I. split; [apply (date_search_In _ _ _ _ I)|eapply PD; eassumption].
+  - rewrite get_time_info_search. apply (ext_only_none tfs); try assumption.
+    intros g I. split; [apply (time_search_In _ _ _ _ _ I)|eapply PT; eassumption].
+  - rewrite get_zone_info_search. apply (ext_only_none zfs); try assumption.
+    intros g I. split; [apply (zone_search_In _ _ _ _ I)|eapply PZ; eassumption].
+Qed.
+
+(* the whole parser refuses a text whose date part is an extended-only date *)
+Theorem basic_only_refuses_text : forall dfs tfs zfs cfg fe a rest,
+  c_basic cfg = true -> simple (f_parse fe) = true -> wf_assign (f_parse fe) a = true ->
+  ext_only dfs fe = true -> no_char "T" (f_parse fe) = true -> nonempty_lead (f_parse fe) = true ->
+  contains_char "T" rest = false ->
+  get_info dfs tfs zfs cfg (render_toks (f_parse fe) a) = PErr ESyntax /\
+  get_info dfs tfs zfs cfg (render_toks (f_parse fe) a ++ String "T" rest) = PErr ESyntax.
+Proof.
+  intros dfs tfs zfs cfg fe a rest B S W E N NE R.
+  destruct (basic_only_refuses dfs tfs zfs cfg fe a B S W) as [RD _]. specialize (RD E).
+  assert (C : contains_char "T" (render_toks (f_parse fe) a) = false) by (apply render_no_char; assumption).
+  split; rewrite get_info_unfold.
+  - unfold split_str. rewrite split_on_nochar by assumption. cbn [append]. rewrite RD. reflexivity.
+  - rewrite split_two by assumption. unfold date_part.
+    rewrite nonempty_lead_render by assumption. cbn [andb]. rewrite RD. reflexivity.
+Qed.
+
+(* reflection: in every table, each extended form is extended-only except the
+   listed ones, whose regex also stands in the basic table *)
+Definition EXT_TWINS : list string :=
+  ["CCYY-MM"; "+XCCYY-MM"; "-DDD"; "hh,ii"; "hh.ii"; "hh"; "-mm"; "--ss"; "-mm,nn"; "--ss,tt"; "-mm.nn"; "--ss.tt"; "Z"; "+hh"].
+Theorem tables_ext_only :
+  forallb (fun L => forallb (fun f => negb (String.eqb (f_format f) "extended") || ext_only L f || mem (f_expr f) EXT_TWINS) L)
+          [DATE_FORMS_0; DATE_FORMS_2; DATE_FORMS_3; TIME_FORMS; ZONE_FORMS] = true.
+Proof. vm_compute. reflexivity. Qed.
+(* and a basic-only parser reaches every basic form (no exceptions but the
+   sign/truncation clash of reachable_dates): reachable_dates, reachable_times,
+   reachable_zones with ba = true *)
+
+(* --- basic dates are never combined with extended times --- *)
+Lemma formats_of_two : forall cfg k, In k (formats_of cfg) -> k = "basic" \/ k = "extended".
+Proof. unfold formats_of. intros cfg k H. destruct (c_basic cfg); simpl in H; intuition. Qed.
+
+Lemma bad_formats_same : forall cfg fk tk k,
+  String.eqb tk "truncated" = false -> In fk (formats_of cfg) -> In k (formats_of cfg) ->
+  mem k (bad_formats_of fk tk) = false -> k = fk.
+Proof.
+  intros cfg fk tk k T F K M. unfold bad_formats_of in M. rewrite T in M.
+  apply formats_of_two in F. apply formats_of_two in K.
+  destruct F as [F|F]; destruct K as [K|K]; subst; try reflexivity; vm_compute in M; discriminate.
+Qed.
+
+Theorem no_mix : forall dfs tfs zfs cfg s d tz i,
+  split_str "T" s = [d; tz] -> get_info dfs tfs zfs cfg s = POk i ->
+  (String.eqb d "" && c_trunc cfg = true) \/
+  exists fd de ft zexpr,
+    get_date_info dfs cfg d ["reduced"] = Some (fd, de) /\ In ft tfs /\
+    i_expr i = f_expr fd ++ "T" ++ f_expr ft ++ zexpr /\ i_date i = de /\
+    (String.eqb (f_type fd) "truncated" = false -> f_format ft = f_format fd) /\
+    (zexpr = "" \/ exists fz, In fz zfs /\ zexpr = f_expr fz /\
+                   (String.eqb (f_type fd) "truncated" = false -> f_format fz = f_format fd)).
+Proof.
+  intros dfs tfs zfs cfg s d tz i SP G. rewrite get_info_unfold, SP in G. unfold date_part in G.
+  destruct (String.eqb d "" && c_trunc cfg) eqn:DT; [left; reflexivity|right].
+  destruct (get_date_info dfs cfg d ["reduced"]) as [[fd de]|] eqn:GD; [|discriminate].
+  pose proof GD as GD'. rewrite get_date_info_search in GD'. apply first_match_In in GD'.
+  apply date_search_In in GD'. destruct GD' as [_ FD].
+  destruct (split_tz tfs zfs cfg tz _ _) as [[t zs]|]; [|discriminate].
+  unfold finish in G.
+  assert (TF : forall tf te, get_time_info tfs cfg t (bad_formats_of (f_format fd) (f_type fd)) (bad_types_of de) = Some (tf, te) ->
+               In tf tfs /\ (String.eqb (f_type fd) "truncated" = false -> f_format tf = f_format fd)).
+  { intros tf te H. rewrite get_time_info_search in H. apply first_match_In in H. apply time_search_In in H.
+    destruct H as [H1 [H2 H3]]. split; [assumption|]. intros T. eapply bad_formats_same; eassumption. }
+  destruct zs as [ztext|].
+  - destruct (get_zone_info zfs cfg ztext _) as [[zf ze]|] eqn:GZ; [|discriminate].
+    destruct (process_zone cfg ze) as [z|]; [|discriminate].
+    destruct (get_time_info tfs cfg t _ _) as [[tf te]|] eqn:GT; [|discriminate].
+    inversion G; subst i. destruct (TF _ _ eq_refl) as [T1 T2].
+    exists fd, de, tf, (f_expr zf). cbn [i_expr i_date]. repeat split; try assumption.
+    right. exists zf. rewrite get_zone_info_search in GZ. apply first_match_In in GZ. apply zone_search_In in GZ.
+    destruct GZ as [Z1 [Z2 Z3]]. repeat split; try assumption. intros T. eapply bad_formats_same; eassumption.
+  - destruct (process_zone cfg []) as [z|]; [|discriminate].
+    destruct (get_time_info tfs cfg t _ _) as [[tf te]|] eqn:GT; [|discriminate].
+    inversion G; subst i. destruct (TF _ _ eq_refl) as [T1 T2].
+    exists fd, de, tf, "". cbn [i_expr i_date]. repeat split; try assumption. left; reflexivity.
+Qed.
+
+
+(* ------------------------------------------------------------------ *)
+(* 8. more explicit instances of the generic end-to-end theorem        *)
+(* ------------------------------------------------------------------ *)
+Definition pick (fk ex : string) (L : list form) : form :=
+  match find (fun f => String.eqb (f_format f) fk && String.eqb (f_expr f) ex) L with
+  | Some f => f | None => mkForm "" "" "" [] [] [] end.
+Definition F_ORDX_BASIC : form := Eval vm_compute in pick "basic" "+XCCYYDDD" DATE_FORMS_2.
+Definition F_HM_BASIC : form := Eval vm_compute in pick "basic" "hhmm" TIME_FORMS.
+Definition F_WEEK_EXT : form := Eval vm_compute in pick "extended" "CCYY-Www-D" DATE_FORMS_2.
+Definition F_HMSD_EXT : form := Eval vm_compute in pick "extended" "hh:mm:ss,tt" TIME_FORMS.
+Definition F_ZHM_EXT : form := Eval vm_compute in pick "extended" "+hh:mm" ZONE_FORMS.
+
+Lemma digits_n_nonempty : forall n s, digits_n (S n) s = true -> String.eqb s "" = false.
+Proof. intros n s H. apply digits_n_inv in H. destruct s; [destruct H; discriminate|reflexivity]. Qed.
+
+Ltac key_cbn := cbn [wf_assign render_toks bindings f_parse f_expr fld lookup_env has_key String.eqb Ascii.eqb Bool.eqb
+                     zo_text zo_bind zo_expr zo_wf nz nq ndec option_map od negb orb andb].
+Ltac key_cbn_in H := cbn [wf_assign render_toks bindings f_parse f_expr fld lookup_env has_key String.eqb Ascii.eqb Bool.eqb
+                     zo_text zo_bind zo_expr zo_wf nz nq ndec option_map od negb orb andb] in H.
+
+(* signed expanded year, ordinal date, hhmm, no zone: seconds default to 0,
+   the zone comes from the configuration (here the default: local = UTC) *)
+Theorem decode_basic_ordinal_hm_local : forall md sg xx cc yy ddd hh mi,
+  is_sign sg = true -> digits_n 2 xx = true -> digits_n 2 cc = true -> digits_n 2 yy = true ->
+  digits_n 3 ddd = true -> digits_n 2 hh = true -> digits_n 2 mi = true ->
+  parse_text md (default_cfg 2) ((sg ++ xx ++ cc ++ yy ++ ddd) ++ "T" ++ (hh ++ mi)) true =
+  let y := (dnum yy + 100 * dnum cc + 10000 * dnum xx)%Z in
+  let p := mkPtp (Some (if String.eqb sg "-" then (- y)%Z else y)) None None (Some (dnum ddd)) None None
+                 (Some (qz (dnum hh))) (Some (qz (dnum mi))) (Some 0%Q) (Some (mkZone 0 0))
+                 false "" 2 "+XCCYYDDDThhmm" in
+  if check_bounds md p then POk p else PErr EBadInput.
+Proof.
+  intros md sg xx cc yy ddd hh mi Hsg Hxx Hcc Hyy Hddd Hhh Hmi.
+  pose (ad := [("year_sign", sg); ("expanded_year", xx); ("century", cc); ("year_of_century", yy); ("day_of_year", ddd)]).
+  pose (atm := [("hour_of_day", hh); ("minute_of_hour", mi)]).
+  assert (OK : triple_ok (date_forms_of (c_ned (default_cfg 2))) TIME_FORMS ZONE_FORMS (default_cfg 2) F_ORDX_BASIC F_HM_BASIC None = true)
+    by (vm_compute; reflexivity).
+  assert (Wd : wf_assign (f_parse F_ORDX_BASIC) ad = true).
+  { unfold F_ORDX_BASIC, ad. key_cbn. rewrite Hsg, Hxx, Hcc, Hyy, Hddd. reflexivity. }
+  assert (Wt : wf_assign (f_parse F_HM_BASIC) atm = true).
+  { unfold F_HM_BASIC, atm. key_cbn. rewrite Hhh, Hmi. reflexivity. }
+  pose proof (parse_text_num md (default_cfg 2) F_ORDX_BASIC F_HM_BASIC None ad atm [] true OK
+     ltac:(vm_compute; reflexivity) ltac:(vm_compute; reflexivity) ltac:(reflexivity) Wd Wt ltac:(reflexivity)) as P.
+  unfold F_ORDX_BASIC, F_HM_BASIC, ad, atm in P. key_cbn_in P.
+  rewrite !sapp_nil_r in P. rewrite P. clear P. cbn [append].
+  change (zone_num (default_cfg 2) []) with (@POk (option (Z * option Z)) (Some (0, Some 0))%Z).
+  cbn [pbind]. unfold point_num. key_cbn. rewrite (digits_n_nonempty _ _ Hxx). cbn [default_cfg c_ned].
+  replace (0 + dnum yy + 100 * dnum cc + 10000 * dnum xx)%Z with (dnum yy + 100 * dnum cc + 10000 * dnum xx)%Z by lia.
+  unfold construct. cbn [pbind negb andb orb truthy Z.leb Z.ltb Z.compare Pos.compare Pos.compare_cont Z.opp].
+  reflexivity.
+Qed.
+
+(* week date, seconds with a decimal fraction, signed zone in hh:mm: the
+   constructor receives the fraction 0.tt and both zone parts with the sign *)
+Theorem decode_ext_week_hmsd_zone : forall md cc yy ww d hh mi ss tt sg zh zm,
+  digits_n 2 cc = true -> digits_n 2 yy = true -> digits_n 2 ww = true -> digits_n 1 d = true ->
+  digits_n 2 hh = true -> digits_n 2 mi = true -> digits_n 2 ss = true -> digits_plus tt = true ->
+  is_sign sg = true -> digits_n 2 zh = true -> digits_n 2 zm = true ->
+  parse_text md (default_cfg 2)
+    ((cc ++ yy ++ "-W" ++ ww ++ "-" ++ d) ++ "T" ++ (hh ++ ":" ++ mi ++ ":" ++ ss ++ "," ++ tt) ++ (sg ++ zh ++ ":" ++ zm)) true =
+  let s := fun v : Z => if String.eqb sg "-" then (- v)%Z else v in
+  construct md (Some (dnum yy + 100 * dnum cc)%Z) None None None (Some (dnum ww)) (Some (dnum d))
+            (Some (qz (dnum hh))) None (Some (qz (dnum mi))) None (Some (qz (dnum ss))) (Some (frac_of tt))
+            (Some (s (dnum zh), Some (s (dnum zm)))) false "" 0 "CCYY-Www-DThh:mm:ss,tt+hh:mm" false.
+Proof.
+  intros md cc yy ww d hh mi ss tt sg zh zm Hcc Hyy Hww Hd Hhh Hmi Hss Htt Hsg Hzh Hzm.
+  pose (ad := [("century", cc); ("year_of_century", yy); ("week_of_year", ww); ("day_of_week", d)]).
+  pose (atm := [("hour_of_day", hh); ("minute_of_hour", mi); ("second_of_minute", ss); ("second_of_minute_decimal", tt)]).
+  pose (az := [("time_zone_sign", sg); ("time_zone_hour", zh); ("time_zone_minute", zm)]).
+  assert (OK : triple_ok (date_forms_of (c_ned (default_cfg 2))) TIME_FORMS ZONE_FORMS (default_cfg 2) F_WEEK_EXT F_HMSD_EXT (Some F_ZHM_EXT) = true)
+    by (vm_compute; reflexivity).
+  assert (Wd : wf_assign (f_parse F_WEEK_EXT) ad = true).
+  { unfold F_WEEK_EXT, ad. key_cbn. rewrite Hcc, Hyy, Hww, Hd. reflexivity. }
+  assert (Wt : wf_assign (f_parse F_HMSD_EXT) atm = true).
+  { unfold F_HMSD_EXT, atm. key_cbn. rewrite Hhh, Hmi, Hss, Htt. reflexivity. }
+  assert (Wz : zo_wf (Some F_ZHM_EXT) az = true).
+  { unfold F_ZHM_EXT, az. key_cbn. rewrite Hsg, Hzh, Hzm. reflexivity. }
+  pose proof (parse_text_num md (default_cfg 2) F_WEEK_EXT F_HMSD_EXT (Some F_ZHM_EXT) ad atm az true OK
+     ltac:(vm_compute; reflexivity) ltac:(vm_compute; reflexivity) ltac:(vm_compute; reflexivity) Wd Wt Wz) as P.
+  unfold F_WEEK_EXT, F_HMSD_EXT, F_ZHM_EXT, ad, atm, az in P. key_cbn_in P.
+  rewrite !sapp_nil_r in P. rewrite P. clear P. cbn [append].
+  unfold zone_num, point_num. key_cbn. cbn [pbind].
+  replace (0 + dnum yy + 100 * dnum cc + 10000 * 0)%Z with (dnum yy + 100 * dnum cc)%Z by lia.
+  reflexivity.
+Qed.
+
+(* --- numbers rendered by the dumper's own padding are read back exactly --- *)
+From Iso Require Import Model.Dump.
+Definition pad_check (w N : nat) : bool :=
+  forallb (fun k => let n := Z.of_nat k in digits_n w (pad_num w n) && Z.eqb (dnum (pad_num w n)) n) (seq 0 N).
+Lemma pad_num_aux : forall w N n, pad_check w N = true -> (0 <= n < Z.of_nat N)%Z ->
+  digits_n w (pad_num w n) = true /\ dnum (pad_num w n) = n.
+Proof.
+  intros w N n C R. unfold pad_check in C. rewrite forallb_forall in C.
+  specialize (C (Z.to_nat n)). rewrite Z2Nat.id in C by lia.
+  assert (I : In (Z.to_nat n) (seq 0 N)) by (apply in_seq; lia).
+  specialize (C I). cbv zeta in C. apply andb_true_iff in C. destruct C as [C1 C2].
+  apply Z.eqb_eq in C2. auto.
+Qed.
+Theorem pad_num_1 : forall n, (0 <= n < 10)%Z -> digits_n 1 (pad_num 1 n) = true /\ dnum (pad_num 1 n) = n.
+Proof. intros. apply (pad_num_aux 1 10); [vm_compute; reflexivity|lia]. Qed.
+Theorem pad_num_2 : forall n, (0 <= n < 100)%Z -> digits_n 2 (pad_num 2 n) = true /\ dnum (pad_num 2 n) = n.
+Proof. intros. apply (pad_num_aux 2 100); [vm_compute; reflexivity|lia]. Qed.
+Theorem pad_num_3 : forall n, (0 <= n < 1000)%Z -> digits_n 3 (pad_num 3 n) = true /\ dnum (pad_num 3 n) = n.
+Proof. intros. apply (pad_num_aux 3 1000); [vm_compute; reflexivity|lia]. Qed.
+
+(* the flagship instance on field VALUES: the text is written with two-digit
+   zero padding; the parser returns exactly those values (or refuses them when
+   they are out of the calendar's bounds) *)
+Theorem decode_ext_calendar_hms_utc_values : forall md cen yoc mo d h mi s,
+  (0 <= cen < 100)%Z -> (0 <= yoc < 100)%Z -> (0 <= mo < 100)%Z -> (0 <= d < 100)%Z ->
+  (0 <= h < 100)%Z -> (0 <= mi < 100)%Z -> (0 <= s < 100)%Z ->
+  parse_text md (default_cfg 2)
+    ((pad_num 2 cen ++ pad_num 2 yoc ++ "-" ++ pad_num 2 mo ++ "-" ++ pad_num 2 d) ++ "T" ++
+     (pad_num 2 h ++ ":" ++ pad_num 2 mi ++ ":" ++ pad_num 2 s) ++ "Z") true =
+  let p := mkPtp (Some (yoc + 100 * cen)%Z) (Some mo) (Some d) None None None
+                 (Some (qz h)) (Some (qz mi)) (Some (qz s)) (Some (mkZone 0 0))
+                 false "" 0 "CCYY-MM-DDThh:mm:ssZ" in
+  if check_bounds md p then POk p else PErr EBadInput.
+Proof.
+  intros md cen yoc mo d h mi s H1 H2 H3 H4 H5 H6 H7.
+  destruct (pad_num_2 _ H1) as [D1 N1]. destruct (pad_num_2 _ H2) as [D2 N2]. destruct (pad_num_2 _ H3) as [D3 N3].
+  destruct (pad_num_2 _ H4) as [D4 N4]. destruct (pad_num_2 _ H5) as [D5 N5]. destruct (pad_num_2 _ H6) as [D6 N6].
+  destruct (pad_num_2 _ H7) as [D7 N7].
+  rewrite (decode_ext_calendar_hms_utc md _ _ _ _ _ _ _ D1 D2 D3 D4 D5 D6 D7).
+  rewrite N1, N2, N3, N4, N5, N6, N7. reflexivity.
+Qed.
+
+
+(* ------------------------------------------------------------------ *)
+(* 9. the generic end-to-end theorem over everything the tables offer  *)
+(* ------------------------------------------------------------------ *)
+Lemma triple_ok_cfg : forall dfs tfs zfs cfg fd ft zo,
+  triple_ok dfs tfs zfs cfg fd ft zo =
+  triple_ok dfs tfs zfs (cfg_of (c_ned cfg) (c_trunc cfg) (c_basic cfg)) fd ft zo.
+Proof. destruct cfg; reflexivity. Qed.
+Lemma cfg_of_in : forall ned tr ba, In ned [0; 2; 3]%Z -> In (cfg_of ned tr ba) all_cfgs.
+Proof.
+  intros ned tr ba H. unfold all_cfgs. apply in_flat_map. exists ned. split; [assumption|].
+  apply in_flat_map. exists tr. split; [destruct tr; simpl; auto|].
+  apply in_map. destruct ba; simpl; auto.
+Qed.
+
+Theorem decode_tables : forall md cfg fd gd ft zo ad atm az asp,
+  In (c_ned cfg) [0; 2; 3]%Z ->
+  let dfs := date_forms_of (c_ned cfg) in
+  In fd (date_search dfs cfg ["reduced"]) ->
+  hit (date_search dfs cfg ["reduced"]) fd = Some gd ->
+  let bf := bad_formats_of (f_format gd) (f_type gd) in
+  In ft (time_search TIME_FORMS cfg bf (trunc_types fd)) ->
+  In zo (zone_choices cfg bf ft) ->
+  (c_ned cfg = 0%Z -> binds "expanded_year" (f_parse fd) = false) ->
+  wf_assign (f_parse fd) ad = true -> wf_assign (f_parse ft) atm = true -> zo_wf zo az = true ->
+  parse_text md cfg (render_toks (f_parse fd) ad ++ "T" ++ render_toks (f_parse ft) atm ++ zo_text zo az) asp =
+  (zn <-- zone_num cfg (zo_bind zo az) ;;;
+   point_num md cfg (bindings (f_parse fd) ad) (bindings (f_parse ft) atm) zn
+             (if asp then f_expr fd ++ "T" ++ f_expr ft ++ zo_expr zo else "") false).
+Proof.
+  intros md cfg fd gd ft zo ad atm az asp N dfs ID H bf IT IZ EX Wd Wt Wz.
+  set (cfg' := cfg_of (c_ned cfg) (c_trunc cfg) (c_basic cfg)).
+  assert (IC : In cfg' all_cfgs) by (apply cfg_of_in; assumption).
+  assert (OK : triple_ok dfs TIME_FORMS ZONE_FORMS cfg fd ft zo = true).
+  { rewrite triple_ok_cfg. fold cfg'.
+    destruct (triple_ok_tables cfg' fd ft zo IC) as [gd' [H' T]].
+    { unfold cfg'. cbn [c_ned cfg_of]. fold dfs. rewrite <- date_search_cfg. exact ID. }
+    unfold cfg' in H'. cbn [c_ned cfg_of] in H'. fold dfs in H'. rewrite <- date_search_cfg in H'.
+    rewrite H in H'. inversion H'; subst gd'. unfold cfg' in T. cbn [c_ned cfg_of] in T. fold dfs in T.
+    apply T.
+    - fold bf. rewrite (time_search_cfg TIME_FORMS cfg) in IT. exact IT.
+    - fold bf. unfold zone_choices in *. rewrite (zone_search_cfg ZONE_FORMS cfg) in IZ. exact IZ. }
+  destruct tables_num_keys as [K23 [K0 [KT KZ]]].
+  apply parse_text_num; try assumption.
+  - (* date keys *)
+    apply date_search_In in ID. destruct ID as [ID _]. unfold dfs, date_forms_of in ID.
+    destruct (c_ned cfg =? 0)%Z eqn:E0.
+    + rewrite forallb_forall in K0. specialize (K0 fd ID). apply Z.eqb_eq in E0. rewrite (EX E0), orb_false_r in K0. exact K0.
+    + rewrite forallb_forall in K23. apply K23. apply in_or_app.
+      destruct (c_ned cfg =? 3)%Z; [right|left]; exact ID.
+  - apply time_search_In in IT. destruct IT as [IT _]. rewrite forallb_forall in KT. apply KT. exact IT.
+  - destruct zo as [fz|]; [|reflexivity]. cbn [zo_keys_ok]. unfold zone_choices in IZ.
+    apply in_app_or in IZ. destruct IZ as [IZ|IZ].
+    + destruct (String.eqb (f_type ft) "truncated"); [destruct IZ|]. destruct IZ as [IZ|[]]. discriminate.
+    + apply in_map_iff in IZ. destruct IZ as [x [E IZ]]. inversion E; subst x.
+      apply zone_search_In in IZ. destruct IZ as [IZ _]. rewrite forallb_forall in KZ. apply KZ. exact IZ.
+Qed.
